@@ -148,32 +148,47 @@ package bluemonday
 //@   sets sanRes = result
 //@   ensures[C02] attrsGood(p, elementName, result)
 //@   ensures[C03] p.requireParseableURLs ==> urlsOK(p, elementName, result)
+//@   ensures[C10] stylesOKif(p, elementName, result)
 //@   ensures[C11] link3(elementName) && hasKey(result, "href") && (p.requireNoFollow || (p.requireNoFollowFullyQualifiedLinks && extHref(result))) ==> hasKey(result, "rel") && relsHave(result, "nofollow")
 //@   ensures[C11] link3(elementName) && hasKey(result, "href") && (p.requireNoReferrer || (p.requireNoReferrerFullyQualifiedLinks && extHref(result))) ==> hasKey(result, "rel") && relsHave(result, "noreferrer")
 //@   ensures[C11] elementName == "a" && p.addTargetBlankToFullyQualifiedLinks && extHref(result) ==> hasKey(result, "target") && firstTargetBlank(result)
 //@   ensures[C11] elementName == "a" && linkOpts(p) && hasKey(result, "href") && hasBlankTarget(result) ==> hasKey(result, "rel") && relsHave(result, "noopener")
 //@   ensures[C12] p.requireCrossOriginAnonymous && coEl(elementName) && len(result) > 0 ==> hasKey(result, "crossorigin") && (forall i int :: 0 <= i && i < len(result) && result[i].Key == "crossorigin" ==> result[i].Val == "anonymous")
 //@   ensures[C12] p.requireSandboxOnIFrame != nil && elementName == "iframe" && len(result) > 0 ==> hasKey(result, "sandbox") && (forall i int :: 0 <= i && i < len(result) && result[i].Key == "sandbox" ==> sandboxOK(p, result[i].Val))
+//@   before "cleanAttrs := []html.Attribute{}"
+//@     lemma[C10] hasStylePolicies <==> hasStyleRulesS(p, elementName)
+//@   before "if (p.requireNoFollow ||"
+//@     lemma[C10] stylesOKif(p, elementName, cleanAttrs)
+//@   before "if hrefFound {"
+//@     lemma[C10] stylesOKif(p, elementName, cleanAttrs)
 //@   before "if targetBlankFound {"
+//@     lemma[C10] stylesOKif(p, elementName, cleanAttrs)
 //@     lemma[C11] hasKey(cleanAttrs, "href") && (extHref(cleanAttrs) <==> externalLink)
 //@     lemma[C11] addNoFollow ==> hasKey(cleanAttrs, "rel") && relsHave(cleanAttrs, "nofollow")
 //@     lemma[C11] addNoReferrer ==> hasKey(cleanAttrs, "rel") && relsHave(cleanAttrs, "noreferrer")
 //@     lemma[C11] elementName == "a" && addTargetBlank ==> hasKey(cleanAttrs, "target") && firstTargetBlank(cleanAttrs)
 //@     lemma[C11] targetBlankFound <==> (elementName == "a" && hasBlankTarget(cleanAttrs))
 //@   before "if p.requireCrossOriginAnonymous && len(cleanAttrs) > 0"
+//@     lemma[C10] stylesOKif(p, elementName, cleanAttrs)
 //@     lemma[C11] link3(elementName) && hasKey(cleanAttrs, "href") && (p.requireNoFollow || (p.requireNoFollowFullyQualifiedLinks && extHref(cleanAttrs))) ==> hasKey(cleanAttrs, "rel") && relsHave(cleanAttrs, "nofollow")
 //@     lemma[C11] link3(elementName) && hasKey(cleanAttrs, "href") && (p.requireNoReferrer || (p.requireNoReferrerFullyQualifiedLinks && extHref(cleanAttrs))) ==> hasKey(cleanAttrs, "rel") && relsHave(cleanAttrs, "noreferrer")
 //@     lemma[C11] elementName == "a" && p.addTargetBlankToFullyQualifiedLinks && extHref(cleanAttrs) ==> hasKey(cleanAttrs, "target") && firstTargetBlank(cleanAttrs)
 //@     lemma[C11] elementName == "a" && linkOpts(p) && hasKey(cleanAttrs, "href") && hasBlankTarget(cleanAttrs) ==> hasKey(cleanAttrs, "rel") && relsHave(cleanAttrs, "noopener")
 //@   before "if p.requireSandboxOnIFrame != nil && elementName"
+//@     lemma[C10] stylesOKif(p, elementName, cleanAttrs)
 //@     lemma[C11] link3(elementName) && hasKey(cleanAttrs, "href") && (p.requireNoFollow || (p.requireNoFollowFullyQualifiedLinks && extHref(cleanAttrs))) ==> hasKey(cleanAttrs, "rel") && relsHave(cleanAttrs, "nofollow")
 //@     lemma[C11] link3(elementName) && hasKey(cleanAttrs, "href") && (p.requireNoReferrer || (p.requireNoReferrerFullyQualifiedLinks && extHref(cleanAttrs))) ==> hasKey(cleanAttrs, "rel") && relsHave(cleanAttrs, "noreferrer")
 //@     lemma[C11] elementName == "a" && p.addTargetBlankToFullyQualifiedLinks && extHref(cleanAttrs) ==> hasKey(cleanAttrs, "target") && firstTargetBlank(cleanAttrs)
 //@     lemma[C11] elementName == "a" && linkOpts(p) && hasKey(cleanAttrs, "href") && hasBlankTarget(cleanAttrs) ==> hasKey(cleanAttrs, "rel") && relsHave(cleanAttrs, "noopener")
+//@   loop 0 "for k, v := range p.elsMatchingAndStyles"
+//@     invariant[C10] !(len(p.globalStyles) > 0) && !(elementName in p.elsAndStyles && len(p.elsAndStyles[elementName]) > 0)
+//@     invariant[C10] forall r *regexp.Regexp :: $visited(r) ==> !(rmatch(r, elementName) && len(p.elsMatchingAndStyles[r]) > 0)
 //@   loop 1 "for _, htmlAttr := range attrs"
 //@     invariant fresh(cleanAttrs)
+//@     invariant[C10] stylesOKif(p, elementName, cleanAttrs)
 //@     invariant[C02] attrsAdm(p, elementName, cleanAttrs)
 //@   loop 4 "for _, htmlAttr := range cleanAttrs"
+//@     invariant[C10] stylesOKif(p, elementName, tmpAttrs)
 //@     invariant fresh(tmpAttrs)
 //@     invariant[C02] attrsAdm(p, elementName, cleanAttrs)
 //@     invariant[C02] attrsGood(p, elementName, tmpAttrs)
@@ -185,6 +200,8 @@ package bluemonday
 //@     invariant[C11] rangeindex < len(cleanAttrs)
 //@     after[C11] (hrefFound <==> hasKey(cleanAttrs, "href")) && (externalLink <==> extHref(cleanAttrs))
 //@   loop 6 "for _, htmlAttr := range cleanAttrs"
+//@     invariant[C10] stylesOKif(p, elementName, cleanAttrs)
+//@     invariant[C10] stylesOKif(p, elementName, tmpAttrs)
 //@     invariant fresh(tmpAttrs)
 //@     invariant[C11] len(tmpAttrs) == rangeindex + 1 && rangeindex < len(cleanAttrs)
 //@     invariant[C11] forall i int :: 0 <= i && i <= rangeindex ==> tmpAttrs[i].Key == cleanAttrs[i].Key && (cleanAttrs[i].Key != "rel" && cleanAttrs[i].Key != "target" ==> tmpAttrs[i].Val == cleanAttrs[i].Val)
@@ -206,6 +223,8 @@ package bluemonday
 //@     invariant[C03] p.requireParseableURLs ==> urlsOK(p, elementName, tmpAttrs)
 //@     invariant forall i int :: 0 <= i && i < len(cleanAttrs) ==> cleanAttrs[i] == pre(cleanAttrs[i])
 //@   loop 7 "for _, htmlAttr := range cleanAttrs"
+//@     invariant[C10] stylesOKif(p, elementName, cleanAttrs)
+//@     invariant[C10] stylesOKif(p, elementName, tmpAttrs)
 //@     invariant fresh(tmpAttrs)
 //@     invariant[C11] len(tmpAttrs) == rangeindex + 1 && rangeindex < len(cleanAttrs)
 //@     invariant[C11] forall i int :: 0 <= i && i <= rangeindex ==> tmpAttrs[i].Key == cleanAttrs[i].Key && (cleanAttrs[i].Key != "rel" ==> tmpAttrs[i].Val == cleanAttrs[i].Val)
@@ -223,6 +242,7 @@ package bluemonday
 //@     invariant[C03] p.requireParseableURLs ==> urlsOK(p, elementName, tmpAttrs)
 //@     invariant forall i int :: 0 <= i && i < len(cleanAttrs) ==> cleanAttrs[i] == pre(cleanAttrs[i])
 //@   loop 8 "for i, htmlAttr := range cleanAttrs"
+//@     invariant[C10] stylesOKif(p, elementName, cleanAttrs)
 //@     invariant[C11] forall i int :: 0 <= i && i < len(cleanAttrs) ==> cleanAttrs[i].Key == pre(cleanAttrs[i].Key) && (cleanAttrs[i].Key != "crossorigin" ==> cleanAttrs[i].Val == pre(cleanAttrs[i].Val))
 //@     after[C11] hasKey(cleanAttrs, "href") ==> pre(hasKey(cleanAttrs, "href"))
 //@     after[C11] pre(hasKey(cleanAttrs, "href")) ==> hasKey(cleanAttrs, "href")
@@ -238,12 +258,14 @@ package bluemonday
 //@     invariant[C02] attrsGood(p, elementName, cleanAttrs)
 //@     invariant[C03] p.requireParseableURLs ==> urlsOK(p, elementName, cleanAttrs)
 //@   loop 9 "for i, htmlAttr := range cleanAttrs"
+//@     invariant[C10] stylesOKif(p, elementName, cleanAttrs)
 //@     invariant[C12] sandboxFound <==> (exists i int :: 0 <= i && i <= rangeindex && cleanAttrs[i].Key == "sandbox")
 //@     invariant[C12] forall i int :: 0 <= i && i <= rangeindex && cleanAttrs[i].Key == "sandbox" ==> sandboxOK(p, cleanAttrs[i].Val)
 //@     invariant[C12] rangeindex < len(cleanAttrs)
 //@     invariant[C02] attrsGood(p, elementName, cleanAttrs)
 //@     invariant[C03] p.requireParseableURLs ==> urlsOK(p, elementName, cleanAttrs)
 //@   loop 10 "for _, val := range strings.Fields(htmlAttr.Val)"
+//@     invariant[C10] stylesOKif(p, elementName, cleanAttrs)
 //@     invariant[C12] forall j int :: 0 <= j && j < len(cleanVals) ==> (cleanVals[j] in p.requireSandboxOnIFrame && p.requireSandboxOnIFrame[cleanVals[j]] && cleanVals[j] in cleanValsSet && cleanValsSet[cleanVals[j]])
 //@     invariant[C12] forall s string :: s in cleanValsSet && cleanValsSet[s] ==> (exists j int :: 0 <= j && j < len(cleanVals) && cleanVals[j] == s)
 //@     invariant[C12] forall j int, k int :: 0 <= j && j < k && k < len(cleanVals) ==> cleanVals[j] != cleanVals[k]
@@ -433,12 +455,22 @@ package bluemonday
 //@   modifies r :: exists e string :: e in spb.p.elsAndStyles && r == ref(spb.p.elsAndStyles[e])
 //@   ensures result == spb.p && wfp(spb.p) && spb.p.initialized
 //@   ensures[C17] forall e string :: old(e in spb.p.elsAndStyles) ==> e in spb.p.elsAndStyles
+//@   ensures[C10] forall e string, a string, j int :: old(e in spb.p.elsAndStyles && a in spb.p.elsAndStyles[e] && 0 <= j && j < len(spb.p.elsAndStyles[e][a])) ==> (e in spb.p.elsAndStyles && a in spb.p.elsAndStyles[e] && j < len(spb.p.elsAndStyles[e][a]) && spb.p.elsAndStyles[e][a][j] == old(spb.p.elsAndStyles[e][a][j]))
+//@   ensures[C10] forall e string, a string, j int :: e in spb.p.elsAndStyles && a in spb.p.elsAndStyles[e] && 0 <= j && j < len(spb.p.elsAndStyles[e][a]) && !old(e in spb.p.elsAndStyles && a in spb.p.elsAndStyles[e] && j < len(spb.p.elsAndStyles[e][a])) ==> matcherFrom(spb, a, spb.p.elsAndStyles[e][a][j])
 //@   loop 0 "for _, element := range elements"
 //@     invariant wfsb(spb) && spb.p == old(spb.p) && spb.p.elsAndStyles == old(spb.p.elsAndStyles)
+//@     invariant[C10] spb.handler == old(spb.handler) && spb.enum == old(spb.enum) && spb.regexp == old(spb.regexp)
+//@     invariant[C10] forall e string, a string :: e in spb.p.elsAndStyles && a in spb.p.elsAndStyles[e] ==> arr(spb.p.elsAndStyles[e][a]) == nil || allocated(arr(spb.p.elsAndStyles[e][a]))
+//@     invariant[C10] forall e string, a string, j int :: old(e in spb.p.elsAndStyles && a in spb.p.elsAndStyles[e] && 0 <= j && j < len(spb.p.elsAndStyles[e][a])) ==> (e in spb.p.elsAndStyles && a in spb.p.elsAndStyles[e] && j < len(spb.p.elsAndStyles[e][a]) && spb.p.elsAndStyles[e][a][j] == old(spb.p.elsAndStyles[e][a][j]))
+//@     invariant[C10] forall e string, a string, j int :: e in spb.p.elsAndStyles && a in spb.p.elsAndStyles[e] && 0 <= j && j < len(spb.p.elsAndStyles[e][a]) && !old(e in spb.p.elsAndStyles && a in spb.p.elsAndStyles[e] && j < len(spb.p.elsAndStyles[e][a])) ==> matcherFrom(spb, a, spb.p.elsAndStyles[e][a][j])
 //@     invariant forall e string :: e in spb.p.elsAndStyles ==> (old(e in spb.p.elsAndStyles) && spb.p.elsAndStyles[e] == old(spb.p.elsAndStyles[e])) || fresh(spb.p.elsAndStyles[e])
 //@     invariant[C17] forall e string :: old(e in spb.p.elsAndStyles) ==> e in spb.p.elsAndStyles
 //@   loop 1 "for _, attr := range spb.propertyNames"
 //@     invariant wfsb(spb) && spb.p == old(spb.p) && spb.p.elsAndStyles == old(spb.p.elsAndStyles)
+//@     invariant[C10] spb.handler == old(spb.handler) && spb.enum == old(spb.enum) && spb.regexp == old(spb.regexp)
+//@     invariant[C10] forall e string, a string :: e in spb.p.elsAndStyles && a in spb.p.elsAndStyles[e] ==> arr(spb.p.elsAndStyles[e][a]) == nil || allocated(arr(spb.p.elsAndStyles[e][a]))
+//@     invariant[C10] forall e string, a string, j int :: old(e in spb.p.elsAndStyles && a in spb.p.elsAndStyles[e] && 0 <= j && j < len(spb.p.elsAndStyles[e][a])) ==> (e in spb.p.elsAndStyles && a in spb.p.elsAndStyles[e] && j < len(spb.p.elsAndStyles[e][a]) && spb.p.elsAndStyles[e][a][j] == old(spb.p.elsAndStyles[e][a][j]))
+//@     invariant[C10] forall e string, a string, j int :: e in spb.p.elsAndStyles && a in spb.p.elsAndStyles[e] && 0 <= j && j < len(spb.p.elsAndStyles[e][a]) && !old(e in spb.p.elsAndStyles && a in spb.p.elsAndStyles[e] && j < len(spb.p.elsAndStyles[e][a])) ==> matcherFrom(spb, a, spb.p.elsAndStyles[e][a][j])
 //@     invariant forall e string :: e in spb.p.elsAndStyles ==> (old(e in spb.p.elsAndStyles) && spb.p.elsAndStyles[e] == old(spb.p.elsAndStyles[e])) || fresh(spb.p.elsAndStyles[e])
 //@     invariant[C17] forall e string :: old(e in spb.p.elsAndStyles) ==> e in spb.p.elsAndStyles
 
@@ -448,8 +480,14 @@ package bluemonday
 //@   modifies spb.p.elsMatchingAndStyles
 //@   modifies r :: exists e *regexp.Regexp :: e in spb.p.elsMatchingAndStyles && r == ref(spb.p.elsMatchingAndStyles[e])
 //@   ensures result == spb.p && wfp(spb.p) && spb.p.initialized
+//@   ensures[C10] forall e *regexp.Regexp, a string, j int :: old(e in spb.p.elsMatchingAndStyles && a in spb.p.elsMatchingAndStyles[e] && 0 <= j && j < len(spb.p.elsMatchingAndStyles[e][a])) ==> (e in spb.p.elsMatchingAndStyles && a in spb.p.elsMatchingAndStyles[e] && j < len(spb.p.elsMatchingAndStyles[e][a]) && spb.p.elsMatchingAndStyles[e][a][j] == old(spb.p.elsMatchingAndStyles[e][a][j]))
+//@   ensures[C10] forall e *regexp.Regexp, a string, j int :: e in spb.p.elsMatchingAndStyles && a in spb.p.elsMatchingAndStyles[e] && 0 <= j && j < len(spb.p.elsMatchingAndStyles[e][a]) && !old(e in spb.p.elsMatchingAndStyles && a in spb.p.elsMatchingAndStyles[e] && j < len(spb.p.elsMatchingAndStyles[e][a])) ==> matcherFrom(spb, a, spb.p.elsMatchingAndStyles[e][a][j])
 //@   loop 0 "for _, attr := range spb.propertyNames"
 //@     invariant wfsb(spb) && spb.p == old(spb.p) && spb.p.elsMatchingAndStyles == old(spb.p.elsMatchingAndStyles)
+//@     invariant[C10] spb.handler == old(spb.handler) && spb.enum == old(spb.enum) && spb.regexp == old(spb.regexp)
+//@     invariant[C10] forall e *regexp.Regexp, a string :: e in spb.p.elsMatchingAndStyles && a in spb.p.elsMatchingAndStyles[e] ==> arr(spb.p.elsMatchingAndStyles[e][a]) == nil || allocated(arr(spb.p.elsMatchingAndStyles[e][a]))
+//@     invariant[C10] forall e *regexp.Regexp, a string, j int :: old(e in spb.p.elsMatchingAndStyles && a in spb.p.elsMatchingAndStyles[e] && 0 <= j && j < len(spb.p.elsMatchingAndStyles[e][a])) ==> (e in spb.p.elsMatchingAndStyles && a in spb.p.elsMatchingAndStyles[e] && j < len(spb.p.elsMatchingAndStyles[e][a]) && spb.p.elsMatchingAndStyles[e][a][j] == old(spb.p.elsMatchingAndStyles[e][a][j]))
+//@     invariant[C10] forall e *regexp.Regexp, a string, j int :: e in spb.p.elsMatchingAndStyles && a in spb.p.elsMatchingAndStyles[e] && 0 <= j && j < len(spb.p.elsMatchingAndStyles[e][a]) && !old(e in spb.p.elsMatchingAndStyles && a in spb.p.elsMatchingAndStyles[e] && j < len(spb.p.elsMatchingAndStyles[e][a])) ==> matcherFrom(spb, a, spb.p.elsMatchingAndStyles[e][a][j])
 //@     invariant forall e *regexp.Regexp :: e in spb.p.elsMatchingAndStyles ==> (old(e in spb.p.elsMatchingAndStyles) && spb.p.elsMatchingAndStyles[e] == old(spb.p.elsMatchingAndStyles[e])) || fresh(spb.p.elsMatchingAndStyles[e])
 
 //@ func (*bluemonday.stylePolicyBuilder).Globally
@@ -458,8 +496,14 @@ package bluemonday
 //@   modifies spb.p.globalStyles
 //@   ensures result == spb.p && wfp(spb.p) && spb.p.initialized
 //@   ensures[C17] forall a string :: old(a in spb.p.globalStyles) ==> a in spb.p.globalStyles
+//@   ensures[C10] forall a string, j int :: old(a in spb.p.globalStyles && 0 <= j && j < len(spb.p.globalStyles[a])) ==> (a in spb.p.globalStyles && j < len(spb.p.globalStyles[a]) && spb.p.globalStyles[a][j] == old(spb.p.globalStyles[a][j]))
+//@   ensures[C10] forall a string, j int :: a in spb.p.globalStyles && 0 <= j && j < len(spb.p.globalStyles[a]) && !old(a in spb.p.globalStyles && j < len(spb.p.globalStyles[a])) ==> matcherFrom(spb, a, spb.p.globalStyles[a][j])
 //@   loop 0 "for _, attr := range spb.propertyNames"
 //@     invariant wfsb(spb) && spb.p == old(spb.p) && spb.p.globalStyles == old(spb.p.globalStyles)
+//@     invariant[C10] spb.handler == old(spb.handler) && spb.enum == old(spb.enum) && spb.regexp == old(spb.regexp)
+//@     invariant[C10] forall a string :: a in spb.p.globalStyles ==> arr(spb.p.globalStyles[a]) == nil || allocated(arr(spb.p.globalStyles[a]))
+//@     invariant[C10] forall a string, j int :: old(a in spb.p.globalStyles && 0 <= j && j < len(spb.p.globalStyles[a])) ==> (a in spb.p.globalStyles && j < len(spb.p.globalStyles[a]) && spb.p.globalStyles[a][j] == old(spb.p.globalStyles[a][j]))
+//@     invariant[C10] forall a string, j int :: a in spb.p.globalStyles && 0 <= j && j < len(spb.p.globalStyles[a]) && !old(a in spb.p.globalStyles && j < len(spb.p.globalStyles[a])) ==> matcherFrom(spb, a, spb.p.globalStyles[a][j])
 //@     invariant[C17] forall a string :: old(a in spb.p.globalStyles) ==> a in spb.p.globalStyles
 
 //@ func (*bluemonday.Policy).AllowElements
@@ -732,6 +776,7 @@ package bluemonday
 //@ func css.GetDefaultHandler
 //@   modifies nothing
 //@   ensures[C10,C18] !(attr in defaultStyleHandlers) ==> result == fnvalue(css.BaseHandler)
+//@   ensures result != nil
 
 //@ func css.in
 //@   modifies nothing
